@@ -275,6 +275,10 @@ func (h *Handler) SendMessageElement(ctx context.Context, s *xmpp.Session, paylo
 	}
 	err := s.SendElement(ctx, r, msg.StartElement())
 	if err != nil {
+		// Nobody will wait for this receipt.
+		h.m.Lock()
+		delete(h.sent, msg.ID)
+		h.m.Unlock()
 		return err
 	}
 
